@@ -55,7 +55,7 @@ MustFail == {"exit3", "exit1silent", "killed", "notExecutable", "badFormat", "mi
              "closesStdoutThenSleeps", "exit255",
              "symlinkLoop", "danglingSymlink", "parentIsFile", "nameTooLong", "directory", "emptyName"}
             \cup {pfx \o ":" \o m : pfx \in {"sensor", "fan.getPwm", "fan.getRpm"}, m \in WrapFail}
-            \cup {"fan.setPwm:" \o m : m \in {"exit3", "errnonl", "okexit", "sleep"}}
+            \cup {"fan.setPwm:" \o m : m \in {"exit3", "errnonl", "okexit", "sleep"}} \cup {"fan.concurrent:sleep"}
 MustSucceed == {"ok", "okTrim", "empty", "garbage", "huge", "okWithStderr", "okNoNewline", "readsStdin"}
                \cup {pfx \o ":ok" : pfx \in {"sensor", "fan.getPwm", "fan.getRpm", "fan.setPwm"}}
                \cup {"fan.setPwm:" \o m : m \in {"garbage", "digits", "empty", "nan", "blank", "crlf", "tab"}}
